@@ -66,6 +66,7 @@ def run(tier, seed, scale):
     chk.require(st.get("upgrade_true", 0) >= 5000 * f and st.get("upgrade_false", 0) >= 5000 * f, "too few upgrades (true=%d false=%d)" % (st.get("upgrade_true", 0), st.get("upgrade_false", 0)))
     chk.require(st.get("upgrade_storms_with_a_loser", 0) >= 500 * f, "fewer than %d concurrent-upgrade storms in which an upgrader had to give way" % (500 * f))
     chk.require(st.get("downgrades", 0) >= 5000 * f, "too few downgrades")
+    chk.require(st.get("requests_on_a_reused_scoped_lock_object", 0) >= 20000 * f, "only %d requests were made through a scoped_lock object that had served an earlier request" % st.get("requests_on_a_reused_scoped_lock_object", 0))
     chk.require(st.get("try_ok", 0) >= 5000 * f and st.get("try_refused", 0) >= 5000 * f, "too few try_acquire outcomes of either kind")
     chk.require(st.get("concurrent_reader_sections", 0) >= 3000 * f, "too few overlapping read sections")
     chk.require(st.get("fifo_pairs.queuing_mutex", 0) >= 200000 * f, "queue-order oracle: too few certain-order pairs on queuing_mutex")
@@ -100,6 +101,7 @@ def run(tier, seed, scale):
         "upgrade_storms[total,with_a_loser]": [st.get("upgrade_storms", 0), st.get("upgrade_storms_with_a_loser", 0)],
         "upgrades_after_downgrade_in_one_hold": st.get("upgrades_after_downgrade_in_one_hold", 0),
         "downgrades": st.get("downgrades", 0),
+        "requests_through_a_reused_scoped_lock_object": st.get("requests_on_a_reused_scoped_lock_object", 0),
         "try[ok,refused]": [st.get("try_ok", 0), st.get("try_refused", 0)],
         "overlapping_read_sections": st.get("concurrent_reader_sections", 0),
         "queue_order_pairs_checked": {"queuing_mutex": st.get("fifo_pairs.queuing_mutex", 0), "queuing_rw_mutex": st.get("fifo_pairs.queuing_rw_mutex", 0)},
